@@ -158,6 +158,10 @@ func worker() {
 			for i := 0; i < K; i++ {
 				fi := rng.Intn(F)
 				path := filepath.Join(dir, fmt.Sprintf("f%d", fi))
+				if !absent && rng.Intn(3) == 0 {
+					// the same file under another name: a symbolic link to it
+					path = filepath.Join(dir, fmt.Sprintf("l%d", fi))
+				}
 				ev := event{Client: client, File: fi}
 				mk := func() (string, []byte) {
 					s := int64(wid)*10_000_000 + atomic.AddInt64(&serial, 1)
@@ -641,7 +645,7 @@ func main() {
 		return
 	}
 	vlib.Main("C07", "exploration", 12*time.Minute, func(r *vlib.Run) {
-		r.Rule("schedules: rounds of P processes (2-6) x G goroutines (2-6) released together on F files (every second process with its standard input closed, so that files land on descriptor 0); each client does K operations (Read via lockedfile.Read or Open+delayed ReadAll, Write of a unique payload, Transform to a unique payload, Transform whose function fails) with unique self-describing payloads of 24B..256KiB and seeded delays at the lockedfile hooks; each file's history (plus a final quiescent Read) is checked with porcupine against a register model; every fifth round has no blind Writes and is also checked by the chain checker; every fifth round writes empty contents too and starts half of its files empty (EMPTY is then an ordinary value of the register); every fifth round starts with no files at all (12-31 names, first operations race to create them; a missing and an empty file are the one value EMPTY); every fourth round the workers run under strace with EINTR injected into every other flock call of every thread. faults: for 9 (quick) / 15 old/new length relations a dry run under strace lists the file operations of one Transform, then one run per (operation, errno), plus failing function and RLIMIT_FSIZE short writes; the same enumeration for one Write (whenever it returns nil the file holds exactly the new bytes); 57 Writes whose content reader fails after 0 / 1 / half / all but one of its bytes must report that error. Non-trivial/distinct = per-file histories containing overlapping operations of different kinds + confirmed fault injections.")
+		r.Rule("schedules: rounds of P processes (2-6) x G goroutines (2-6) released together on F files (every second process with its standard input closed, so that files land on descriptor 0); each client does K operations (Read via lockedfile.Read or Open+delayed ReadAll, Write of a unique payload, Transform to a unique payload, Transform whose function fails) with unique self-describing payloads of 24B..256KiB, a third of the operations reaching the file through a symbolic link, and seeded delays at the lockedfile hooks; each file's history (plus a final quiescent Read) is checked with porcupine against a register model; every fifth round has no blind Writes and is also checked by the chain checker; every fifth round writes empty contents too and starts half of its files empty (EMPTY is then an ordinary value of the register); every fifth round starts with no files at all (12-31 names, first operations race to create them; a missing and an empty file are the one value EMPTY); every fourth round the workers run under strace with EINTR injected into every other flock call of every thread. faults: for 9 (quick) / 15 old/new length relations a dry run under strace lists the file operations of one Transform, then one run per (operation, errno), plus failing function and RLIMIT_FSIZE short writes; the same enumeration for one Write (whenever it returns nil the file holds exactly the new bytes); 57 Writes whose content reader fails after 0 / 1 / half / all but one of its bytes must report that error. Non-trivial/distinct = per-file histories containing overlapping operations of different kinds + confirmed fault injections.")
 		r.Assume("CLOCK_MONOTONIC is one clock for all processes of the machine; porcupine v1.3.0 decides linearizability of the recorded history (timeout => inconclusive)")
 		base := vlib.Scratch()
 		W := runtime.NumCPU()
@@ -696,6 +700,7 @@ func main() {
 			}
 			init := payload.Make("init", 0, 1000)
 			for f := 0; f < F && !absentRound; f++ {
+				os.Symlink(filepath.Join(dir, fmt.Sprintf("f%d", f)), filepath.Join(dir, fmt.Sprintf("l%d", f)))
 				if emptyRound && f%2 == 0 {
 					os.WriteFile(filepath.Join(dir, fmt.Sprintf("f%d", f)), nil, 0o666)
 					continue
